@@ -320,6 +320,12 @@ def run(prop, tier, seed, replay=None, embed=False):
         for path, rec in vm:
             print("VIOLATION property=C17 replay=%s" % path)
         return 1 if vm else 0
+    if replay is not None and prop == "C16" and (json.load(open(replay)).get("scenario") or {}).get("layer") == "L3":
+        import fam_fs
+        v, k, st = fam_fs.run("C16", tier, seed, only_ops={"resize"})     # the whole resize enumeration is re-run (seconds)
+        for path, rec in v:
+            print("VIOLATION property=C16 replay=%s" % path)
+        return 1 if v else 0
     if replay is not None and prop in ("C01", "C16") and (json.load(open(replay)).get("scenario") or {}).get("layer") == "L1":
         import fam_controller
         v, k, st = fam_controller.run(prop, tier, seed, replay=replay, embed=True)
@@ -528,6 +534,13 @@ def run(prop, tier, seed, replay=None, embed=False):
             v1, k1, l1 = fam_controller.run("C16", tier, seed, embed=True)
             violations += v1
             known += k1
+            # a grow that is cut short: every directory-changing call of Resize is a kill boundary and
+            # fails once with ENOSPC / EIO (harness L3, the C08 machinery restricted to resize); the
+            # recorded size must never run ahead of the files
+            import fam_fs
+            v3, k3, l3 = fam_fs.run("C16", tier, seed, only_ops={"resize"})
+            violations += v3
+            known += k3
         if prop == "C17" and replay is None and not embed:
             # REST half of C17: the replica's state x action table on the real router (harness L5)
             import fam_rest
@@ -579,6 +592,8 @@ def run(prop, tier, seed, replay=None, embed=False):
             coverage["rest_matrix_part_L5" if prop == "C17" else "controller_part_L1"] = l1
         if big_stats:
             coverage["large_volume_part"] = big_stats
+        if prop == "C16" and replay is None and not embed:
+            coverage["interrupted_grow_part_L3"] = l3
         if replay is not None:
             coverage["states"] = coverage["states"] or 1
             coverage["transitions"] = coverage["transitions"] or 1
